@@ -113,7 +113,7 @@ class Ref:
 
 def oracle(case, line):
     """Property C02 evaluated on ONE implementation output line. Returns list of (klass, text)."""
-    if line.startswith("HANG") or line.startswith("SKIPPED-AFTER-HANGS"):
+    if line.startswith("HANG"):
         return [("hang", "the implementation did not answer this case within the per-case watchdog: " + line[:80])]
     if line.startswith("CRASH") or line.startswith("ERR:") or line.startswith("REJECT") or line in ("MISSING", "BADCASE"):
         return [("crash", "harness/impl crashed, rejected the torrent or raised outside an operation: " + line[:200])]
